@@ -189,12 +189,6 @@ func (p *Probe) ServeHTTP(w http.ResponseWriter, r *http.Request, next caddyhttp
 		for k, v := range sc.tset {
 			w.Header()[k] = append([]string(nil), v...)
 		}
-		switch sc.route {
-		case "err":
-			return errors.New("verif handler error")
-		case "herr":
-			return caddyhttp.Error(sc.status, errors.New("verif handler error"))
-		}
 		return next.ServeHTTP(w, r)
 	case "errh":
 		if sc.e == 2 {
@@ -203,6 +197,12 @@ func (p *Probe) ServeHTTP(w http.ResponseWriter, r *http.Request, next caddyhttp
 		w.WriteHeader(http.StatusTeapot)
 		return nil
 	default:
+		switch sc.route {
+		case "err":
+			return errors.New("verif handler error")
+		case "herr":
+			return caddyhttp.Error(sc.status, errors.New("verif handler error"))
+		}
 		w.WriteHeader(sc.status)
 		_, _ = w.Write([]byte("ok"))
 		return nil
@@ -442,6 +442,9 @@ func execSite(sc *script) siteObs {
 	w.servers[sc.serverName()].ServeHTTP(rec, req)
 	logs := snapshotSinks()
 	sc.tresp = cloneTab(rec.Header())
+	// when a handler merges several spellings of one header (Header.Add while ranging over a map)
+	// the order of the merged values follows Go's map iteration order: compare value multisets
+	sc.tmid, sc.tout, sc.tupo, sc.tresp = sortVals(sc.tmid), sortVals(sc.tout), sortVals(sc.tupo), sortVals(sc.tresp)
 	obs := siteObs{logs: logs}
 	for _, line := range strings.Split(logs["json"], "\n") {
 		if line == "" {
@@ -461,7 +464,7 @@ func execSite(sc *script) siteObs {
 				obs.err = "header-object-not-arrays"
 				return
 			}
-			obs.entries = append(obs.entries, logger+"/"+obj+"="+encHdr(t))
+			obs.entries = append(obs.entries, logger+"/"+obj+"="+encHdr(sortVals(t)))
 		}
 		reqObj, _ := m["request"].(map[string]any)
 		switch {
